@@ -1394,6 +1394,46 @@ pub fn c14_size_affixes() {
         _ => check!(run("size(1)").is_err() && run("size(true)").is_err() && run("size(null)").is_err(), "size of a scalar is an error"),
     }
 }
+/// C06: operator nodes whose operands are nodes of the same operator (else-if ladders, nested conditionals, chains,
+/// double negation) over logging operands, against Rust's own short-circuit evaluation of the same shape.
+pub fn c06_nested_operators() {
+    let (case, bits): (u8, u8) = (any(), any());
+    crate::sym::assume(case <= 8 && bits < 8);
+    let b = |k: u8| (bits >> k) & 1 == 1;
+    let log: Arc<Mutex<Vec<i64>>> = Arc::new(Mutex::new(Vec::new()));
+    let l1 = log.clone();
+    let mut ctx = Context::default();
+    // t(k, v): logs k, returns v
+    ctx.add_function("t", move |k: i64, v: Value| -> Result<Value, ExecutionError> {
+        l1.lock().unwrap().push(k);
+        Ok(v)
+    });
+    let want_log: std::cell::RefCell<Vec<i64>> = std::cell::RefCell::new(Vec::new());
+    let tb = |k: i64, v: bool| -> bool {
+        want_log.borrow_mut().push(k);
+        v
+    };
+    let ti = |k: i64, v: i64| -> i64 {
+        want_log.borrow_mut().push(k);
+        v
+    };
+    let c = |k: u8| format!("t({}, {})", k, b(k));
+    let (src, want): (String, Value) = match case {
+        0 => (format!("{} ? t(10, 1) : ({} ? t(11, 2) : t(12, 3))", c(0), c(1)), Value::Int(if tb(0, b(0)) { ti(10, 1) } else if tb(1, b(1)) { ti(11, 2) } else { ti(12, 3) })),
+        1 => (format!("{} ? ({} ? t(10, 1) : t(11, 2)) : t(12, 3)", c(0), c(1)), Value::Int(if tb(0, b(0)) { if tb(1, b(1)) { ti(10, 1) } else { ti(11, 2) } } else { ti(12, 3) })),
+        2 => (format!("({} ? {} : {}) ? t(10, 1) : t(11, 2)", c(0), c(1), c(2)), Value::Int(if (if tb(0, b(0)) { tb(1, b(1)) } else { tb(2, b(2)) }) { ti(10, 1) } else { ti(11, 2) })),
+        3 => (format!("{} ? t(10, 1) : {} ? t(11, 2) : {} ? t(12, 3) : t(13, 4)", c(0), c(1), c(2)),
+              Value::Int(if tb(0, b(0)) { ti(10, 1) } else if tb(1, b(1)) { ti(11, 2) } else if tb(2, b(2)) { ti(12, 3) } else { ti(13, 4) })),
+        4 => (format!("{} && ({} && {})", c(0), c(1), c(2)), Value::Bool(tb(0, b(0)) && (tb(1, b(1)) && tb(2, b(2))))),
+        5 => (format!("({} && {}) && {}", c(0), c(1), c(2)), Value::Bool((tb(0, b(0)) && tb(1, b(1))) && tb(2, b(2)))),
+        6 => (format!("{} || ({} || {})", c(0), c(1), c(2)), Value::Bool(tb(0, b(0)) || (tb(1, b(1)) || tb(2, b(2))))),
+        7 => (format!("({} || {}) || {}", c(0), c(1), c(2)), Value::Bool((tb(0, b(0)) || tb(1, b(1))) || tb(2, b(2)))),
+        _ => (format!("!(!{})", c(0)), Value::Bool(!(!tb(0, b(0))))),
+    };
+    let got = Program::compile(&src).expect("compiles").execute(&ctx);
+    check!(got == Ok(want), "nested operator nodes yield the value of the same shape evaluated with short-circuiting");
+    check!(*log.lock().unwrap() == *want_log.borrow(), "exactly the operands that short-circuit evaluation needs are evaluated, in order");
+}
 /// C04 visitor half: a run of k prefix operators applies the operator k times (an even run cancels).
 pub fn c04_prefix() {
     let (op, k, operand): (u8, u8, u8) = (any(), any(), any());
@@ -1957,6 +1997,7 @@ crate::replay_only! {
     #[kani::unwind(2)] c09_container_self_equality: "off", "Value == Value and `x == x` / `x != x` through Program::compile + execute on lists and maps (nested) holding NaN or an int, both operands one allocation", "4 shapes x 2 payloads x 3 ways of asking";
     #[kani::unwind(2)] c09_min_max: "off", "min(..) / max(..) over 1-4 numbers of mixed kinds, separate arguments or one list, judged by the language's own comparisons", "2 functions x 2 forms x 1-4 values x 24 orders";
     #[kani::unwind(2)] c14_size_affixes: "off", "size / startsWith / endsWith through Program::compile + execute on lists, maps, strings (non-ASCII included) and bytes, additivity over +", "6 cases x 4 x 4 operands";
+    #[kani::unwind(2)] c06_nested_operators: "off", "else-if ladders, nested conditionals, && / || chains of either grouping and double negation over logging operands through Program::compile + execute, against Rust's short-circuit evaluation", "9 shapes x 8 truth assignments";
     #[kani::unwind(2)] c12_literal: "off", "a string / bytes literal token through Program::compile + execute against an independent decoder of the CEL literal syntax", "token text of up to 24 characters taken from the vector";
     #[kani::unwind(2)] c13_string_roundtrip: "off", "int(string(x)) / uint(string(x)) / double(string(x)) through Program::compile + execute", "payload bits from the vector";
     #[kani::unwind(2)] c13_literal: "off", "int / uint literals of every sign, radix and magnitude through Program::compile + execute", "text built from the vector";
